@@ -292,7 +292,7 @@ TYPED_MSG_BAD = MessageType("app:badtyped", [Field("tv", _raising_serializer, ""
 TYPED_ACT_BAD = ActionType(
     "app:B", [Field("tv", _raising_serializer, "")], [Field("rv", _raising_serializer, "")], ""
 )
-ATYPES = ["app:X", "app:Y"]
+ATYPES = ["app:X", "app:Y", ""]  # "" is start_action()'s default type
 
 MSG_APIS = [
     "log_message",
@@ -322,7 +322,7 @@ SCHEMA = {
     "a": [
         ("style", 5),
         ("typed", 2),
-        ("at", len(ATYPES)),
+        ("at", 2),
         ("exit", len(EXITS)),
         ("sf", N_FS),
         ("ef", N_FS),
@@ -341,6 +341,8 @@ def valid_default(prog):
         if nd[0] == "a":
             if a.get("style", 0) == 4 and a.get("typed", 0):
                 return False  # log_call has no typed variant
+            if a.get("typed", 0) and a.get("at", 0) >= len(TYPED_ACT):
+                return False  # typed actions have two types only
             if a.get("style", 0) in REMOTE_STYLES and (
                 a.get("typed", 0) or a.get("at", 0)
             ):
@@ -513,7 +515,7 @@ class Interp(object):
         ef = dict(ALL_FS[efi])
         xf = a.get("xf", 0)
         if typed:
-            at = TYPED_ACT[a.get("at", 0)] if typed == 1 else TYPED_ACT_BAD
+            at = TYPED_ACT[a.get("at", 0) % len(TYPED_ACT)] if typed == 1 else TYPED_ACT_BAD
             atype = at.action_type
             tv = "start%d" % sfi
             rv = "res%d" % efi
